@@ -136,3 +136,14 @@ def altered_blob(c, kind, p, layout):
     w, pt, out = blobmut.unprotect_altered(c, kind, p, layout, concrete=concrete)
     c.check(c.counter("kdf") <= 4 + 67, "bounded key-derivation work")
     return True
+
+
+@harness(P, params=lambda tier: [dict(n=n) for n in ([1, 2, 5, 15] if tier == "quick" else range(1, 16))], raises=ALLOWED, budget_violation=True, max_steps=20000,
+         bounds="the protection descriptor's SID as a structured string S-R-A-s1..sn (n in {1,2,5,15} quick / 1..15 thorough) with R in [0,9], A in [0,2^70), si in [0,2^34) symbolic, through "
+         "SIDDescriptor.get_target_sd(): a deliberate error type or a descriptor, never OverflowError / struct.error", must_reach=())
+def sid_values(c, n):
+    from .c08 import _sid_str
+
+    s, r, a, subs = _sid_str(c, n)
+    c.call(_blob.SIDDescriptor(s).get_target_sd)
+    return True
